@@ -16,14 +16,27 @@ import sys
 import tempfile
 import threading
 
-_real = {"mkstemp": tempfile.mkstemp, "write": os.write, "close": os.close, "move": shutil.move,
+_real = {"mkdtemp": tempfile.mkdtemp, "makedirs": os.makedirs, "mkstemp": tempfile.mkstemp, "write": os.write, "close": os.close, "move": shutil.move,
          "rename": os.rename, "replace": os.replace, "stat": os.stat}
 _tls = threading.local()
 _sess = [None]
 
 
 class Crash(BaseException):
-    """The simulated death of the writing process."""
+    """The simulated death of the writing process.  The directory is copied at the instant
+    of death: cleanup handlers that run while the exception unwinds would not run in a
+    process that really died, so the judged state is the copy, not what unwinding leaves."""
+
+    def __init__(self, msg):
+        BaseException.__init__(self, msg)
+        s = _sess[0]
+        if s is not None and s.snapshot is None:
+            snap = _real["mkdtemp"](prefix="c15snap_", dir=os.path.dirname(s.dir.rstrip("/")) or "/tmp")
+            try:
+                shutil.copytree(s.dir, os.path.join(snap, "d"))
+            except Exception:  # noqa
+                pass
+            s.snapshot = snap
 
 
 def _tid():
@@ -31,7 +44,8 @@ def _tid():
 
 
 class Session:
-    def __init__(self, watch_dir, target, plans=None, driver=None):
+    def __init__(self, watch_dir, target, plans=None, driver=None, cold=False):
+        self.cold = cold
         self.dir = os.path.realpath(watch_dir)
         self.target = target
         self.plans = plans or {}       # tid -> (k, mode, arg)   k-th call among M,W,C,R of that thread
@@ -40,6 +54,8 @@ class Session:
         self.fds = {}                  # fd -> (tid, name)
         self.count = {}
         self.probed = set()
+        self.dprobed = set()
+        self.snapshot = None
         self.lock = threading.Lock()
 
     def hit(self, kind, detail=None):
@@ -48,12 +64,12 @@ class Session:
         if self.driver is not None:
             self.driver.point(tid)
         with self.lock:
-            k = self.count.get(tid, 0) if kind != "P" else None
-            if kind != "P":
+            k = self.count.get(tid, 0) if kind not in "PED" else None
+            if kind not in "PED":
                 self.count[tid] = k + 1
             self.events.append((tid, kind, detail))
         plan = self.plans.get(tid)
-        if plan and kind != "P" and plan[0] == k:
+        if plan and kind not in "PED" and plan[0] == k:
             return plan[1], plan[2]
         return None, None
 
@@ -146,12 +162,25 @@ def _mk_rename(name):
 
 def _w_stat(path, *a, **k):
     s = _sess[0]
-    if s is not None and s.driver is not None and isinstance(path, str) and path == s.target:
+    if s is not None and s.driver is not None and isinstance(path, str):
         tid = _tid()
-        if tid not in s.probed:
+        if path == s.target and tid not in s.probed:
             s.probed.add(tid)
             s.hit("P")
+        elif s.cold and path.rstrip("/") == s.dir and tid not in s.dprobed:
+            s.dprobed.add(tid)
+            s.hit("E")
     return _real["stat"](path, *a, **k)
+
+
+def _w_makedirs(path, *a, **k):
+    s = _sess[0]
+    if s is not None and s.driver is not None and s.cold and isinstance(path, str) and path.rstrip("/") == s.dir:
+        s.hit("D")
+    return _real["makedirs"](path, *a, **k)
+
+
+os.makedirs = _w_makedirs
 
 
 class _FileProxy:
@@ -435,6 +464,11 @@ def run_crash_part(ctx, model_lines, model_expect, disagreements):
                 kinds = "".join(e[1] for e in s.events)
                 ctx.count("crash_events:" + kinds)
                 case = {"prior": prior, "crash_at_call": k, "call": "MWCR"[k], "mode": mode, "bytes": arg, "fs_calls_seen": kinds}
+                if crashed and s.snapshot:
+                    # put the directory back into the state it had at the instant of death
+                    shutil.rmtree(world.moddir, ignore_errors=True)
+                    _real["move"](os.path.join(s.snapshot, "d"), world.moddir)
+                    shutil.rmtree(s.snapshot, ignore_errors=True)
                 if not crashed:
                     ctx.broke("correspondence:writer-protocol", "the planned crash point was never reached: %r (the module file is written through calls the harness does not see)" % (case,))
                     continue
@@ -551,6 +585,57 @@ def run_concurrent_part(ctx, model_lines, model_expect, tier):
         world.close()
 
 
+def run_cold_start_part(ctx, tier):
+    """two Templates constructed concurrently while the module directory does not exist yet:
+    scheduling points at the directory probe (E), makedirs (D) and the writer calls"""
+    world = World()
+    try:
+        rng = ctx.rng
+        base = [[0, 1, 0, 1], [0, 1, 1, 0], [1, 0, 0, 1], [0, 0, 1, 1], [1, 1, 0, 0]]
+        scheds = [b + [rng.randrange(2) for _ in range(12)] for b in base]
+        scheds += [[rng.randrange(2) for _ in range(16)] for _ in range(15 if tier == "quick" else 300)]
+        for order in scheds:
+            shutil.rmtree(world.moddir, ignore_errors=True)
+            # remove the whole chain of generated directories below mods
+            for d in os.listdir(world.mods):
+                shutil.rmtree(os.path.join(world.mods, d), ignore_errors=True)
+            world.set_source(2, 1_800_000_200)
+            drv = Driver([0, 1])
+            s = Session(world.moddir, world.modpath, driver=drv, cold=True)
+            _sess[0] = s
+            outs = {}
+
+            def work(tid):
+                _tls.tid = tid
+                try:
+                    outs[tid] = construct(world)
+                except BaseException as e:  # noqa
+                    outs[tid] = "raised " + type(e).__name__ + ": " + str(e)[:80]
+                finally:
+                    drv.finished(tid)
+            ths = [threading.Thread(target=work, args=(i,)) for i in (0, 1)]
+            for t in ths:
+                t.start()
+            try:
+                trace = drv.run(order)
+            except common.HarnessTimeout as e:
+                ctx.violation({"schedule": order, "error": str(e)}, "a constructor neither finished nor reached a scheduling point", tags=["c15.cold.hang"])
+                trace = None
+            for t in ths:
+                t.join(30)
+            _sess[0] = None
+            ctx.evaluations += 1
+            ctx.nontrivial.add(("cold", tuple(order)))
+            ctx.count("cold_events:" + "".join(e[1] for e in s.events if e[0] == 0) + "/" + "".join(e[1] for e in s.events if e[0] == 1))
+            case = {"schedule_requested": order, "segments_granted": trace, "events": [(e[0], e[1]) for e in s.events], "outputs": dict(outs)}
+            for tid in (0, 1):
+                if outs.get(tid) != "v2":
+                    ctx.violation(case, "concurrent first construction (module directory not yet existing) failed or rendered wrongly", tags=["c15.cold.render"])
+                    break
+    finally:
+        world.close()
+
+
 def run_decision_part(ctx, model_lines, model_expect, tier):
     from mako import codegen
     magic = codegen.MAGIC_NUMBER
@@ -658,6 +743,7 @@ def run(ctx):
     with common.time_limit(600 if ctx.tier == "quick" else 7200):
         run_crash_part(ctx, model_lines, model_expect, disagreements)
         run_concurrent_part(ctx, model_lines, model_expect, ctx.tier)
+        run_cold_start_part(ctx, ctx.tier)
         run_decision_part(ctx, model_lines, model_expect, ctx.tier)
     ctx.generators["crash_points"] = {"cases": sum(1 for e in model_expect if e[0] == "crash"), "prior_states": ["none", "old complete module"], "points": "before/after each of mkstemp, write, close, move; mid-write after 0, 1, n/2, n-1 bytes"}
     ctx.generators["two_writer_interleavings"] = {"cases": sum(1 for e in model_expect if e[0] == "conc"), "space": "all 252 interleavings of 5 scheduling points per writer (probe, mkstemp, write, close, move); quick runs a seeded sample of 90"}
